@@ -71,7 +71,8 @@ Qed.
 (* only control calls, ERROR and BUFFERING make the audio layer command the pipeline *)
 Theorem messages_issue_no_commands : forall w i,
   match i with
-  | StateChanged _ _ _ _ | Tag _ | StreamStart | Eos | Other | Segment _ | GetCurrentTags => True
+  | StateChanged _ _ _ _ | Tag _ | StreamStart | Eos | Warning | AsyncDone | Element _ | Other
+  | Segment _ | GetCurrentTags | GetPosition _ _ | SetAtfCallback _ | SetSourceCallback _ => True
   | _ => False
   end ->
   o_cmds (snd (step w i)) = [].
@@ -93,6 +94,15 @@ Definition agrees (w : world) (lc : option gst) : Prop :=
 
 Lemma update_last_app lc a b : update_last lc (a ++ b) = update_last (update_last lc a) b.
 Proof. unfold update_last. apply fold_left_app. Qed.
+
+Lemma update_last_no_set lc cs :
+  (forall c, In c cs -> forall g, c <> CSetState g) -> update_last lc cs = lc.
+Proof.
+  revert lc. induction cs as [|c t IH]; intros lc H; [reflexivity|].
+  unfold update_last in *. cbn [fold_left].
+  destruct c; try (apply IH; intros c' Hc; apply H; right; exact Hc).
+  exfalso. apply (H (CSetState s) (or_introl eq_refl) s). reflexivity.
+Qed.
 
 Lemma on_state_changed_buffering w n p : buffering (fst (on_state_changed w n p)) = buffering w.
 Proof.
@@ -137,6 +147,12 @@ Proof.
   - (* Tag *)
     assert (E : o_cmds (snd (on_tag w tl)) = []) by exact (messages_issue_no_commands w (Tag tl) I).
     rewrite E. apply (agrees_frame w); [apply on_tag_target|apply on_tag_buffering|exact A].
+  - (* AboutToFinish: may run set_uri, never set_state *)
+    rewrite update_last_no_set by apply on_about_to_finish_no_set_state.
+    apply (agrees_frame w); [apply on_about_to_finish_target|apply on_about_to_finish_buffering|exact A].
+  - (* SourceSetup: commands go to the source element *)
+    rewrite update_last_no_set by apply on_source_setup_no_set_state.
+    rewrite on_source_setup_world. exact A.
 Qed.
 
 Lemma run_agrees : forall ins w lc,
